@@ -10,7 +10,7 @@ ID = "C18"
 LEAN_MODULES = ["PycModel.Properties.C18"]
 NAMESPACES = ["PycModel.C18"]
 REQUIRED_THEOREMS = ["PycModel.C18.balanced_counts", "PycModel.C18.delete_breaks_balance",
-                     "PycModel.C18.duplicate_breaks_balance", "PycModel.C18.unbalanced_of_counts"]
+                     "PycModel.C18.duplicate_breaks_balance", "PycModel.C18.unbalanced_of_counts", "PycModel.C18.ok_no_lex_error", "PycModel.C18.lex_error_rejects"]
 LEVEL = "proof"
 TRUSTED = ["'parse ok => token brackets balanced' over the parser model is not yet proved; kernel-checked are the soundness of the mutation oracle (all sequences) and the lexer-error lemmas; rejection itself is observed on the real parser and compared with the Lean parser model"]
 ASSUMPTIONS = []
